@@ -186,7 +186,17 @@ struct Lin {
         }
         typename covfie::field<B>::view_t v(*fo);
 
-        for (auto & xb : c.xbits) {
+        // the storage beneath the interpolator, as the view sees it (for rewriting cells between two lookups)
+        const auto & storage = [&]() -> const typename SB::owning_data_t & {
+            if constexpr (CLAMP) {
+                return fo->backend().get_backend().get_backend();
+            } else {
+                return fo->backend().get_backend();
+            }
+        }();
+        typename SB::non_owning_data_t raw(storage);
+        uint64_t base_rank = 0;
+        auto one = [&](const std::vector<uint64_t> & xb, bool second) -> Verdict {
             typename covfie::field<B>::coordinate_t x;
             uint64_t base[N];
             q128 a[N];
@@ -283,6 +293,37 @@ struct Lin {
                 j["x"] = xs;
                 return j;
             });
+            base_rank = 0;
+            for (size_t k = 0; k < N; ++k) {
+                base_rank = base_rank * c.ext[k] + (CLAMP ? std::min<uint64_t>(base[k], c.ext[k] - 1) : base[k]);
+            }
+            if (second) {
+                label("second lookup at the same coordinate after the cell's lower corner was rewritten");
+            }
+            return std::nullopt;
+        };
+        for (auto & xb : c.xbits) {
+            if (auto b = one(xb, false)) {
+                return b;
+            }
+            // a view shows the field as it is now: rewrite the lower corner of the cell just used (through the storage
+            // layer's own view) and look the same coordinate up again through the same interpolating view
+            {
+                typename SB::contravariant_input_t::vector_t t;
+                uint64_t qd = base_rank;
+                for (size_t k = N; k-- > 0;) {
+                    t[k] = I(qd % c.ext[k]);
+                    qd /= c.ext[k];
+                }
+                auto & cell = raw.at(t);
+                for (size_t j = 0; j < M; ++j) {
+                    lat[base_rank * M + j] = stored_value<T>(c.vseed ^ 0x9e3779b97f4a7c15ULL, base_rank * M + j + 17, cap());
+                    cell[j] = lat[base_rank * M + j];
+                }
+            }
+            if (auto b = one(xb, true)) {
+                return b;
+            }
         }
         return std::nullopt;
     }
